@@ -653,6 +653,14 @@ func (k *Kernel) TakeLog() []Request {
 }
 
 // Keys lists the rules present, sorted.
+// Forget drops a rule behind the driver's back (what a data plane that lost the rule, or never really had it, looks like to
+// the next request for it: ENOENT).
+func (k *Kernel) Forget(key RuleKey) {
+	k.mu.Lock()
+	defer k.mu.Unlock()
+	delete(k.Rules, key)
+}
+
 func (k *Kernel) Keys() []RuleKey {
 	k.mu.Lock()
 	defer k.mu.Unlock()
